@@ -406,6 +406,9 @@ fn run_history(rep: &mut Report, prop: &str, seed: u64, len: usize) -> HistoryOu
         impls.push(node.dump());
     };
 
+    // peers that should announce their chain's tip next (after the chains were levelled)
+    let mut announce_queue: Vec<u64> = Vec::new();
+    let mut forced_peer: Option<u64> = None;
     for step in 0..len {
         rep.evaluations += 1;
         let mut choice = rng.below(20);
@@ -424,6 +427,20 @@ fn run_history(rep: &mut Report, prop: &str, seed: u64, len: usize) -> HistoryOu
         } else if connected.is_empty() && rng.chance(2, 3) {
             choice = 0;
         }
+        forced_peer = None;
+        if outstanding.is_empty() {
+            while let Some(p) = announce_queue.pop() {
+                if connected.contains(&p) {
+                    forced_peer = Some(p);
+                    choice = 6;
+                    break;
+                }
+            }
+        }
+        // more forks, and peers on them, early in a history
+        if world.chains.len() < 2 && step > 3 && rng.chance(1, 6) {
+            choice = 5;
+        }
         match choice {
             // ------------------------------------------------------------ connect
             0 | 1 => {
@@ -431,7 +448,7 @@ fn run_history(rep: &mut Report, prop: &str, seed: u64, len: usize) -> HistoryOu
                 if connected.contains(&p) {
                     continue;
                 }
-                let ci = if world.chains.len() > 1 && rng.chance(1, 3) {
+                let ci = if world.chains.len() > 1 && rng.chance(1, 2) {
                     rng.below(world.chains.len() as u64) as usize
                 } else {
                     0
@@ -466,6 +483,26 @@ fn run_history(rep: &mut Report, prop: &str, seed: u64, len: usize) -> HistoryOu
                 rep.count_op("disconnect");
             }
             // ------------------------------------------------------------ chain growth / fork
+            3 | 4 if world.chains.len() > 1 && rng.chance(1, 3) => {
+                // competing tips of equal total difficulty: level all chains, then (mostly) let
+                // every chain find one more block at the same time
+                let top = world.chains.iter().map(|c| c.tip_number()).max().unwrap_or(0);
+                let extra = if rng.chance(2, 3) { 1 } else { 0 };
+                for c in world.chains.iter_mut() {
+                    let k = top + extra - c.tip_number();
+                    if k > 0 {
+                        c.append_simple(k);
+                    }
+                    now = now.max(c.tip().timestamp() + 5000);
+                }
+                set_now(now);
+                // everybody announces the new tip, the peers of the other chains first
+                let mut q: Vec<u64> = connected.iter().cloned().collect();
+                q.sort_by_key(|p| std::cmp::Reverse(*world.peer_chain.get(p).unwrap_or(&0)));
+                q.reverse();
+                announce_queue = q;
+                continue;
+            }
             3 | 4 => {
                 let ci = rng.below(world.chains.len() as u64) as usize;
                 let k = *rng.pick(&[1u64, 1, 1, 2, 7, 30]);
@@ -496,10 +533,10 @@ fn run_history(rep: &mut Report, prop: &str, seed: u64, len: usize) -> HistoryOu
                 if connected.is_empty() {
                     continue;
                 }
-                let p = *rng.pick(&connected.iter().cloned().collect::<Vec<_>>());
+                let p = forced_peer.unwrap_or_else(|| *rng.pick(&connected.iter().cloned().collect::<Vec<_>>()));
                 let ci = *world.peer_chain.get(&p).unwrap_or(&0);
                 let chain = &world.chains[ci];
-                let variant = rng.below(12);
+                let variant = if forced_peer.is_some() { 11 } else { rng.below(12) };
                 let mut packed_vh = match variant {
                     0 => chain.verifiable_header(rng.range(1, chain.tip_number())), // an older block
                     _ => chain.verifiable_header(chain.tip_number()),
@@ -1065,6 +1102,74 @@ fn canon(s: &str) -> String {
     s
 }
 
+/// C11: between two dumps (= while one event is handled) every peer that exists before and
+/// after moves along a path of documented diagram edges (`Prove.Edge`)
+fn diagram_oracle(rep: &mut Report, h: &HistoryOut, seed: u64, len: usize) {
+    const KINDS: [&str; 7] = [
+        "Initialized",
+        "RequestFirstLastState",
+        "OnlyHasLastState",
+        "RequestFirstLastStateProof",
+        "Ready",
+        "RequestNewLastState",
+        "RequestNewLastStateProof",
+    ];
+    // edges 1->2 2->3 3->4 4->5 5->6 6->5 5->7 7->5 and the copy shortcut 3->5 (0-based)
+    const EDGES: [(usize, usize); 9] = [(0, 1), (1, 2), (2, 3), (3, 4), (4, 5), (5, 4), (4, 6), (6, 4), (2, 4)];
+    let mut reach = [[false; 7]; 7];
+    for k in 0..7 {
+        reach[k][k] = true;
+    }
+    for _ in 0..7 {
+        for (a, b) in EDGES {
+            for s in 0..7 {
+                if reach[s][a] {
+                    reach[s][b] = true;
+                }
+            }
+        }
+    }
+    let kinds_of = |dump: &str| -> BTreeMap<u64, usize> {
+        let mut m = BTreeMap::new();
+        for part in dump.split('[').skip(1) {
+            let mut t = part.split(' ');
+            if let (Some(id), Some(kind)) = (t.next(), t.next()) {
+                if let (Ok(id), Some(k)) = (id.parse::<u64>(), KINDS.iter().position(|x| *x == kind)) {
+                    m.insert(id, k);
+                }
+            }
+        }
+        m
+    };
+    let mut prev: Option<(BTreeMap<u64, usize>, usize)> = None;
+    for (i, imp) in h.impls.iter().enumerate() {
+        if !imp.starts_with("stored ") {
+            continue;
+        }
+        // the peers part follows " peers "
+        let peers_part = imp.split(" peers ").nth(1).unwrap_or("");
+        let cur = kinds_of(peers_part);
+        if let Some((before, at)) = &prev {
+            for (id, kb) in before {
+                if let Some(ka) = cur.get(id) {
+                    if !reach[*kb][*ka] {
+                        let event = h.lines[*at + 1..i].iter().find(|l| !l.starts_with("dump")).cloned().unwrap_or_default();
+                        rep.violate(
+                            &format!("C11|off-diagram|{}->{}", KINDS[*kb], KINDS[*ka]),
+                            "a peer moves between two states that no path of documented diagram edges connects",
+                            vec![
+                                format!("history-seed {} len {}", seed, len),
+                                format!("# peer {}: {} -> {} while handling `{}`", id, KINDS[*kb], KINDS[*ka], event.chars().take(160).collect::<String>()),
+                            ],
+                        );
+                    }
+                }
+            }
+        }
+        prev = Some((cur, i));
+    }
+}
+
 pub fn run(opts: &Options, prop: &str) -> Report {
     let mut rep = Report::default();
     rep.rule = "event histories (connect, disconnect, chain growth, forks at depth 0..last_n+1, \
@@ -1105,6 +1210,9 @@ pub fn run(opts: &Options, prop: &str) -> Report {
                 .take(14)
                 .collect();
             rep.sample(&format!("history-seed {} len {}: {}", seed, len, ops.join("; ")));
+        }
+        if prop == "C11" {
+            diagram_oracle(&mut rep, &h, *seed, *len);
         }
         for _ in 0..h.lines.len() {
             owner.push(i);
